@@ -45,6 +45,14 @@ def g_pool(draw):
     ylab = np.concatenate([np.arange(K), r.integers(0, K, n_st - K)]).astype(int)
     sessions = [gen.fractional_stats(draw, C, F, p["means"], p["variances"], n_frames=gen.integer(draw, 1, 8), r=r)
                 for _ in range(n_st)]
+    # statistics for the i-vector calls: optionally one component without any data in ANY of them
+    iv_sessions = [dict((k_, np.array(v_, copy=True) if isinstance(v_, np.ndarray) else v_) for k_, v_ in s_.items()) for s_ in sessions]
+    if C >= 2 and gen.choice(draw, [False, True]):
+        dead = gen.integer(draw, 0, C - 1)
+        for s_ in iv_sessions:
+            for k_ in ("n", "sum_px", "sum_pxx"):
+                s_[k_][dead] = 0.0
+    c["iv_sessions"] = iv_sessions
     fa = sut.fa_ref(c)
     c.update(X=X, y=y, init=init, sessions=sessions, ylab=ylab, z=r.normal(0, 1, fa.CF),
              yy=(r.normal(0, 1, fa.rV) if c["jfa"] else None), offsets=np.sqrt(p["variances"]) * r.normal(0, 0.3, (C, F)),
@@ -74,6 +82,7 @@ class Pool:
         self.ubm = sut.make_gmm(case["ubm"])
         self.prior = sut.make_gmm(case["ubm"])
         self.stats = [sut.make_stats(s) for s in case["sessions"]]
+        self.iv_stats = [sut.make_stats(s) for s in case.get("iv_sessions", case["sessions"])]
         self.ylab = np.array(case["ylab"])
         self.offsets = np.array(case["offsets"], dtype=float)
         self.z = np.array(case["z"], dtype=float)
@@ -95,6 +104,8 @@ class Pool:
         for i, s in enumerate(self.stats):
             out["stats[%d].n" % i], out["stats[%d].sum_px" % i], out["stats[%d].sum_pxx" % i] = s.n, s.sum_px, s.sum_pxx
             out["stats[%d].t_ll" % i] = np.array([s.t, s.log_likelihood], dtype=float)
+        for i, s in enumerate(self.iv_stats):
+            out["iv_stats[%d].n" % i], out["iv_stats[%d].sum_px" % i], out["iv_stats[%d].sum_pxx" % i] = s.n, s.sum_px, s.sum_pxx
         out["fa.U"], out["fa.D"] = self.fa.U, self.fa.D
         if self.case["jfa"]:
             out["fa.V"] = self.fa.V
@@ -287,11 +298,11 @@ def run_op(pool, op):
         m = IVectorMachine(pool.ubm, dim_t=2, max_iterations=2, update_sigma=bool(op["flag"]))
         import dask.bag as db
 
-        m.fit(db.from_sequence(pool.stats, npartitions=2) if op["dask"] else pool.stats)
+        m.fit(db.from_sequence(pool.iv_stats, npartitions=2) if op["dask"] else pool.iv_stats)
         res = {"T": m.T, "sigma": m.sigma}
 
         def train():
-            st = [sut.make_stats(s) for s in case["sessions"]]
+            st = [sut.make_stats(s) for s in case.get("iv_sessions", case["sessions"])]
             ub = sut.make_gmm(case["ubm"])
             np.random.seed(case["np_seed"])
             mm = IVectorMachine(ub, dim_t=2, max_iterations=2, update_sigma=bool(op["flag"]))
